@@ -2,6 +2,7 @@ pub mod common;
 pub mod c01;
 pub mod c02;
 pub mod c03;
+pub mod c04;
 pub mod c05;
 pub mod c06;
 pub mod c07;
@@ -9,6 +10,7 @@ pub mod accum;
 pub mod c08;
 pub mod c09;
 pub mod c10;
+pub mod c11;
 pub mod c13;
 pub mod c20;
 pub mod corpus_checks;
@@ -28,12 +30,14 @@ pub fn all() -> Vec<Prop> {
         Prop { id: "C01", run: c01::run, replay: c01::replay, self_test: common::self_test_codec },
         Prop { id: "C02", run: c02::run, replay: c02::replay, self_test: common::self_test_codec },
         Prop { id: "C03", run: c03::run, replay: c03::replay, self_test: common::self_test_codec },
+        Prop { id: "C04", run: c04::run, replay: c04::replay, self_test: common::self_test_codec },
         Prop { id: "C05", run: c05::run, replay: c05::replay, self_test: common::self_test_codec },
         Prop { id: "C06", run: c06::run, replay: c06::replay, self_test: common::self_test_codec },
         Prop { id: "C07", run: c07::run, replay: c07::replay, self_test: common::self_test_codec },
         Prop { id: "C08", run: c08::run, replay: c08::replay, self_test: common::self_test_codec },
         Prop { id: "C09", run: c09::run, replay: c09::replay, self_test: common::self_test_codec },
         Prop { id: "C10", run: c10::run, replay: c10::replay, self_test: common::self_test_codec },
+        Prop { id: "C11", run: c11::run, replay: c11::replay, self_test: common::self_test_codec },
         Prop { id: "C13", run: c13::run, replay: c13::replay, self_test: common::self_test_codec },
         Prop { id: "C20", run: c20::run, replay: c20::replay, self_test: common::self_test_codec },
     ]
